@@ -13,11 +13,13 @@ from contextlib import contextmanager
 from typing import Any
 
 from loki.analyse.abstract_dfa import AbstractDataflowAnalysis, dfa_attached
-from loki.expression import Array, ProcedureSymbol
-from loki.ir.expr_visitors import FindLiterals
+from loki.expression import (
+    Array, Scalar, DeferredTypeSymbol, InlineCall, ProcedureSymbol, ExpressionRetriever
+)
+from loki.ir.expr_visitors import FindLiterals, ExpressionFinder
 from loki.tools import as_tuple, flatten, OrderedSet
 from loki.ir import (
-    Visitor, Transformer, FindVariables, FindInlineCalls, FindTypedSymbols
+    Visitor, Transformer, FindVariables, FindTypedSymbols
 )
 from loki.subroutine import Subroutine
 from loki.tools.util import CaseInsensitiveDict
@@ -49,6 +51,22 @@ def strip_nested_dimensions(expr):
     return expr.clone(dimensions=None, parent=parent)
 
 
+# group of functions that only query memory properties and don't read/write variable value
+_mem_property_queries = ('size', 'lbound', 'ubound', 'present')
+
+
+class FindVariablesNotInMemQueries(ExpressionFinder):
+    """
+    A visitor to collect all variables used in an IR tree, except for
+    those that appear as arguments of functions that only query memory
+    properties (such as ``size`` or ``present``).
+    """
+    retriever = ExpressionRetriever(
+        lambda e: isinstance(e, (Scalar, Array, DeferredTypeSymbol)),
+        recurse_query=lambda e: not (isinstance(e, InlineCall) and e.function in _mem_property_queries)
+    )
+
+
 class DataflowAnalysisAttacher(Transformer):
     """
     Analyse and attach in-place the definition, use and live status of
@@ -60,8 +78,7 @@ class DataflowAnalysisAttacher(Transformer):
        Include kind specifiers for literals in dataflow analysis.
     """
 
-    # group of functions that only query memory properties and don't read/write variable value
-    _mem_property_queries = ('size', 'lbound', 'ubound', 'present')
+    _mem_property_queries = _mem_property_queries
 
     def __init__(self, include_literal_kinds=True, **kwargs):
         super().__init__(inplace=True, invalidate_source=False, **kwargs)
@@ -130,6 +147,15 @@ class DataflowAnalysisAttacher(Transformer):
         if condition is not None:
             return OrderedSet(v for v in variables if condition(v))
         return variables
+
+    @staticmethod
+    def _variables_read_in_expr(expr):
+        """
+        Return the set of variables found in an expression, skipping the arguments
+        of functions that only query memory properties and do not read the value
+        of their argument. Other occurrences of the same variable are included.
+        """
+        return OrderedSet(FindVariablesNotInMemQueries().visit(expr))
 
     @classmethod
     def _symbols_from_lhs_expr(cls, expr):
@@ -207,10 +233,7 @@ class DataflowAnalysisAttacher(Transformer):
     def visit_Loop(self, o, **kwargs):
         # A loop defines the induction variable for its body before entering it
         live = kwargs.pop('live_symbols', OrderedSet())
-        mem_calls = as_tuple(i for i in FindInlineCalls().visit(o.bounds) if i.function in self._mem_property_queries)
-        query_args = as_tuple(flatten(FindVariables().visit(i.parameters) for i in mem_calls))
-        uses = self._symbols_from_expr(o.bounds)
-        uses = OrderedSet(v for v in uses if not v in query_args)
+        uses = self._symbols_from_expr(as_tuple(self._variables_read_in_expr(o.bounds)))
         body, defines, uses = self._visit_body(o.body, live=live|{o.variable.clone()}, uses=uses, **kwargs)
         o._update(body=body)
         # Make sure the induction variable is not considered outside the loop
@@ -230,9 +253,7 @@ class DataflowAnalysisAttacher(Transformer):
         live = kwargs.pop('live_symbols', OrderedSet())
 
         # exclude arguments to functions that just check the memory attributes of a variable
-        mem_call = as_tuple(i for i in FindInlineCalls().visit(o.condition) if i.function in self._mem_property_queries)
-        query_args = as_tuple(flatten(FindVariables().visit(i.parameters) for i in mem_call))
-        cset = OrderedSet(v for v in FindVariables().visit(o.condition) if not v in query_args)
+        cset = self._variables_read_in_expr(o.condition)
 
         if not self.include_literal_kinds:
             # Filter out any symbols used to qualify literals e.g. 0._JPRB
@@ -250,13 +271,8 @@ class DataflowAnalysisAttacher(Transformer):
         live = kwargs.pop('live_symbols', OrderedSet())
 
         # exclude arguments to functions that just check the memory attributes of a variable
-        mem_calls = as_tuple(i for i in FindInlineCalls().visit(o.expr) if i.function in self._mem_property_queries)
-        query_args = as_tuple(flatten(FindVariables().visit(i.parameters) for i in mem_calls))
-        eset = OrderedSet(v for v in FindVariables().visit(o.expr) if not v in query_args)
-
-        mem_calls = as_tuple(i for i in FindInlineCalls().visit(o.values) if i.function in self._mem_property_queries)
-        query_args = as_tuple(flatten(FindVariables().visit(i.parameters) for i in mem_calls))
-        vset = OrderedSet(v for v in FindVariables().visit(o.values) if not v in query_args)
+        eset = self._variables_read_in_expr(o.expr)
+        vset = self._variables_read_in_expr(o.values)
 
         uses = self._symbols_from_expr(as_tuple(eset)) | self._symbols_from_expr(as_tuple(vset))
         body = ()
@@ -297,9 +313,7 @@ class DataflowAnalysisAttacher(Transformer):
 
     def visit_Assignment(self, o, **kwargs):
         # exclude arguments to functions that just check the memory attributes of a variable
-        mem_calls = as_tuple(i for i in FindInlineCalls().visit(o.rhs) if i.function in self._mem_property_queries)
-        query_args = as_tuple(flatten(FindVariables().visit(i.parameters) for i in mem_calls))
-        rset = OrderedSet(v for v in FindVariables().visit(o.rhs) if not v in query_args)
+        rset = self._variables_read_in_expr(o.rhs)
 
         if not self.include_literal_kinds:
             # Filter out any symbols used to qualify literals e.g. 0._JPRB
